@@ -99,7 +99,20 @@ for doc in ({d1}, {d2}, {d1}):
 return ok
 """
         out.append(mk_case(f"c17.history.{n}", [("u1", U), ("u2", "int")], body, pre=[f"BU({L}, u1, u2)"], stubs=["sym_repr"]))
-    for kind, table in (("api", CASES), ("spec", SPEC_CASES)):
+    tables = [("api", list(CASES)), ("spec", list(SPEC_CASES))]
+    if not ctx.quick:
+        for kind, table in tables:
+            extra_rows = []
+            for row in list(table):
+                cid, rpath = row[0], row[1]
+                if "escaped" in cid or rpath not in ("('x',)",):
+                    continue
+                alt = "('xs', ListValue())" if kind == "api" else "('xs', {'type': 'list_value'})"
+                extra_rows.append((cid + "@fan", alt) + tuple(row[2:]))
+                alt2 = "(MapValue(key=Key.in_(['x', 'n'])),)" if kind == "api" else "({'type': 'map_value', 'key.in': ['x', 'n']},)"
+                extra_rows.append((cid + "@keys", alt2) + tuple(row[2:]))
+            table += extra_rows
+    for kind, table in tables:
         for cid, rpath, cond, cond_lit, extra, *more in table:
             heavy = "ListValue()" in rpath or "list_value" in rpath
             params = list(extra) + [("r1", "int" if heavy or cid == "combined" else U), ("u1", "int" if cid == "combined" else U), ("u2", "int")]
